@@ -268,18 +268,36 @@ func pkgLLGoFiles(p *packages.Package) []string {
 			continue
 		}
 		seen[cDir] = true
-		entries, _ := os.ReadDir(cDir)
+		ret = appendIncludable(ret, seen, cDir, true)
+	}
+	return ret
+}
+
+// appendIncludable adds the regular non-Go files of dir, and of the directories
+// below it that are not Go packages themselves (a C source may include
+// "inc/x.h"), to files.
+func appendIncludable(files []string, seen map[string]bool, dir string, top bool) []string {
+	entries, _ := os.ReadDir(dir)
+	if !top {
 		for _, e := range entries {
-			if strings.HasSuffix(e.Name(), ".go") {
-				continue // Go sources are inputs of their own
-			}
-			if sibling := filepath.Join(cDir, e.Name()); e.Type().IsRegular() && !seen[sibling] {
-				seen[sibling] = true
-				ret = append(ret, sibling)
+			if !e.IsDir() && strings.HasSuffix(e.Name(), ".go") {
+				return files // a Go package of its own
 			}
 		}
 	}
-	return ret
+	for _, e := range entries {
+		if strings.HasSuffix(e.Name(), ".go") {
+			continue // Go sources are inputs of their own
+		}
+		path := filepath.Join(dir, e.Name())
+		if e.IsDir() {
+			files = appendIncludable(files, seen, path, false)
+		} else if e.Type().IsRegular() && !seen[path] {
+			seen[path] = true
+			files = append(files, path)
+		}
+	}
+	return files
 }
 
 // collectDependencyInputs adds dependency fingerprints/versions into manifest.
